@@ -555,10 +555,24 @@ func planC16(prop string, seed uint64, tier string, idx int) *Plan {
 	img := g.newImage(-1, -1)
 	art := g.newImage(img, -1)
 	reserved := []string{"index.json", "oci-layout", "blobs", "a/blobs", "a/index.json/b", "a/oci-layout"}
+	// indexes whose child "digest" is a path out of the repository: to a blob of a sibling, to the sibling's index, to
+	// a file outside the root (the sentinel directory holds every blob of the plan)
+	materialise(g.p.Objs)
+	hex := strings.TrimPrefix(g.p.Objs[blobs[0]].digest("sha256"), "sha256:")
+	var trav []int
+	for _, d := range []string{"sha256:../../../" + g.p.Repos[len(g.p.Repos)-1] + "/blobs/sha256/" + hex, "sha256:../../../" + g.p.Repos[0] + "/index.json",
+		"sha256:../../../../outside/blobs/sha256/" + hex, "sha256:../../index.json", "sha256:../sha256/" + hex} {
+		g.p.Objs = append(g.p.Objs, &Obj{Kind: "raw", Raw: `{"schemaVersion":2,"mediaType":"` + mtOCIIndex + `","manifests":[{"mediaType":"` + mtOCIManifest + `","digest":"` + d + `","size":` + fmt.Sprint(g.p.Objs[blobs[0]].Size) + `}]}`, Subject: -1})
+		trav = append(trav, len(g.p.Objs)-1)
+	}
 	n := g.scale(g.r.between(6, 20))
 	for i := 0; i < n; i++ {
 		repo := g.r.intn(g.nrepos())
-		switch g.r.intn(16) {
+		switch g.r.intn(17) {
+		case 16:
+			ti := trav[g.r.intn(len(trav))]
+			g.add(Op{K: "man", Repo: repo, Obj: ti, Tag: "trav", CT: g.r.str("own", "none")})
+			g.add(Op{K: "get", Mode: "tag", Repo: repo, Tag: "trav", Accept: g.r.str("other", "all")})
 		case 0, 1, 2:
 			b := blobs[g.r.intn(len(blobs))]
 			g.add(g.blobOp(repo, b, true))
